@@ -151,3 +151,5 @@ func M_strings_Count(s, sub string) int {
 func M_strings_HasPrefix(s, p string) bool  { return len(s) >= len(p) && s[:len(p)] == p }
 func M_strings_HasSuffix(s, p string) bool  { return len(s) >= len(p) && s[len(s)-len(p):] == p }
 func M_strings_Contains(s, sub string) bool { return M_strings_Index(s, sub) >= 0 }
+
+func M_internal_bytealg_MakeNoZero(n int) []byte { return make([]byte, n) }
